@@ -5,7 +5,7 @@ from hypothesis import strategies as st
 
 from .. import gen, pkg
 from ..plain import Instance
-from ..runner import Result, Skip, Violation
+from ..runner import Result, Skip, Violation, case_hash
 from ..solver_common import (MODE, common_labels, leaf_move, prescribed_root_of, reference, set_costs_inplace,
                              set_leaf_species_inplace, solution_features, validate_output)
 
@@ -220,6 +220,41 @@ def check(case):
                     raise Violation(f"{algo}.ALL.after-{tag}", observed=f"{sum(got2.values())} returned, {len(set(got2) - set(exp2))} not optimal, {len(set(exp2) - set(got2))} missing",
                                     expected=f"the {len(exp2)} optimal solutions of cost {opt2}", extra={"second_costs": c2, "moved": mv[:2] if mv and not tag.startswith("costs") else None})
         labels.append("history")
+    # the command-line observation point: `superrec2 reconcile --solutions all|any` writes that same set / one member of
+    # it and prints the optimum (one random case in eight; options omitted when they have their default value)
+    if not unnamed and "_history" not in case and int(case_hash(case), 16) % 8 == 0:
+        import json
+
+        from .. import stubs
+
+        algo = GROUPS[group][0]
+        mode, restrict = MODE[algo]
+        opt_c, ref_c = reference(inst, mode, restrict_lca=restrict, canonical=(mode == "unordered"))
+        data = {k: v for k, v in case.items() if not k.startswith("_")}
+        if group == "plain":
+            data.pop("leaf_syntenies", None)
+        for policy in ("all", "any"):
+            status, lines, printed, err, _raw = stubs.cli_reconcile(data, algo, policy, omit_default_flags=True, decoy_file_costs=True)
+            if opt_c is None:
+                if status != 1 or lines:
+                    raise Violation(f"cli.{algo}.{policy}.expected-status-1-and-no-output", observed={"status": status, "lines": len(lines)}, expected="no solution")
+                continue
+            if status != 0 or printed != opt_c:
+                raise Violation(f"cli.{algo}.{policy}.status-or-minimum-cost", observed={"status": status, "printed": printed, "stderr": err[-200:]}, expected=opt_c)
+            got_c = Counter()
+            for line in lines:
+                d = json.loads(line)
+                ms = tuple(sorted(d["object_species"].items()))
+                if mode == "plain":
+                    got_c[ms] += 1
+                else:
+                    ls = tuple(sorted((k, tuple(v) if mode == "ordered" else tuple(sorted(v))) for k, v in d["syntenies"].items()))
+                    got_c[(ms, ls)] += 1
+            if policy == "all" and (set(got_c) != set(ref_c or ()) or any(v > 1 for v in got_c.values())):
+                raise Violation(f"cli.{algo}.all!=oracle_set", observed=f"{sum(got_c.values())} lines", expected=f"{len(ref_c or ())} optimal solutions")
+            if policy == "any" and (sum(got_c.values()) != 1 or not set(got_c) <= set(ref_c or ())):
+                raise Violation(f"cli.{algo}.any-not-one-optimal-solution", observed=f"{sum(got_c.values())} lines", expected="one member of the optimal set")
+        labels.append("cli")
     feats, _ = solution_features(inst, any_set, MODE[GROUPS[group][0]][0])
     labels += feats
     labels.append("tie=1" if max_tie <= 1 else "tie=2-4" if max_tie <= 4 else "tie=5-20" if max_tie <= 20 else "tie>20")
